@@ -113,8 +113,14 @@ fn pk_case(markers: usize, pkidx: &[usize], values: &[Vec<u8>], cdc: bool) -> Va
     let vals: Vec<Vec<u8>> = values.to_vec();
     let token = ps.calculate_token(&vals);
     let enc = ps.compute_partition_key(&vals);
+    // the same statement as a CachingSession cache hit hands it out (stored unconfigured, configured again)
+    let cached = ps.verif_through_cache_handle();
+    let token_c = match cached.calculate_token(&vals) {
+        Ok(Some(t)) => le(t.value()),
+        _ => Vec::new(),
+    };
     match (token, enc) {
-        (Ok(Some(t)), Ok(enc)) => json!({"kind":"pk","markers":markers,"pkidx":pkidx,"values":values,"encoded":enc.to_vec(),"token":le(t.value()),"cdc": if cdc {1} else {0}}),
+        (Ok(Some(t)), Ok(enc)) => json!({"kind":"pk","markers":markers,"pkidx":pkidx,"values":values,"encoded":enc.to_vec(),"token":le(t.value()),"token_cached":token_c,"cdc": if cdc {1} else {0}}),
         (t, e) => json!({"kind":"error","msg":format!("{:?} {:?}", t, e.map(|b| b.len()))}),
     }
 }
